@@ -1,4 +1,14 @@
 TEXTS = {
+ "C12": {
+  "text": "Unpack part (Pack-writer and bundle-builder parts are added as their lanes land): Lean theorems over the entry-loop model prove for every archive and every fault position that a successful run equals the fault-free run (C12_unpack_ok_complete), that a fault that is reached is always reported (C12_unpack_header_fault_reported, C12_unpack_body_fault_reported), that a reader fault is never reported as a policy rejection (C12_fault_never_illegal) and that every illegal-slug result has a culprit entry (C12_illegal_has_culprit). The model runs next to the real Unpack with the tar stream cut at every position (quick: a stride; thorough: every byte) and full filesystem dumps are compared; gzip-level faults are judged by the oracle.",
+  "note": "Trusted: Lean kernel; FS model; archive/tar+gzip as decoder (the cut position is mapped to the model's fault by decoding with the same library). Builder and Pack parts of C12 are not yet claimed by this check.",
+  "technique": "Lean 4 proof (induction over the entry loop with a fault parameter) + differential correspondence under injected faults",
+ },
+ "C15": {
+  "text": "Lean theorems prove the type gate (unsupported entry types always fail, never dropped: C15_unsupported_fails for every archive), the skipping of unnamed entries and the deferred, in-order application of directory metadata (C15_dirs_restored_last). That the destination equals the sequential reading of the entries is established on every run by differential correspondence: real Unpack vs. the Lean filesystem model vs. an independent Go reference interpreter on generated archives (duplicates, children before parents, leading '/' and './', PAX global headers).",
+  "note": "Trusted: Lean kernel; FS model (root privileges only so far: the read-only-overwrite retry is modelled but exercised only as root); tar decoding by archive/tar. The full refinement theorem (model = spec interpreter) is not proved; it rests on correspondence.",
+  "technique": "Lean 4 proof (entry-loop induction) + differential correspondence with a reference interpreter",
+ },
  "C03": {
   "text": "Lean theorems prove, for every well-formed rule and every path string (no length/depth bound, newlines and metacharacters included), that the regular-expression tokens the code compiles decide exactly the documented segment-wise glob (C03_compile_sound), that evaluation is last-match-wins (C03_last_match_wins), what the built-in rules exclude (C03_defaults), that parsing establishes the negationsAfter invariant (C03_marking) and that pruning on a dominating match is sound for tail-closed rule sets (C03_prune_sound; counterexample C03_cex_prune_star_tail for 'foo/*', recorded finding F32). The model is run next to the real ParseIgnoreFileContent/Excludes on generated rule files x paths on every run and every verdict is also judged by an independent Go matcher; the rule table, escape set and (?s) flag are re-extracted from the source before the proofs are re-checked.",
   "note": "Trusted: Lean kernel (+propext, Quot.sound, Classical.choice); regexp engine modelled on the five-fragment subset; patterns using [ ] or backslash are outside the model; Pack-level and bundle-level filtering (walk + pruning) are covered by the pack/bundle lanes as they are added (see level of C03 in DESIGN.md §8).",
